@@ -96,6 +96,16 @@ class C15(RailsProp):
                 b["turns"][0]["pre_context"] = ctxd
                 a["turns"][0]["prefix_messages"] = [{"role": "user", "content": _json.dumps(ctxd)}, {"role": "user", "content": b0}, {"role": "assistant", "content": rb0}]
             a["start"] = 30.0  # concurrent family: conversation 1 has answered its first turn by then
+        if colang == "1.0" and adv == "none" and d.chance(0.5, "visitor"):
+            # every conversation brings a context variable of its own that a predefined bot message renders ({{ visitor }})
+            sc["bot_template_var"] = True
+            for c, conv in enumerate(sc["convs"]):
+                conv["turns"][0]["pre_context"] = {"visitor": "visitor-%d" % c}
+                # make sure the predefined message is asked for in this conversation
+                if d.chance(0.7, "visitor-topic0", c):
+                    t = d.randint(0, len(conv["turns"]) - 1, "visitor-turn", c)
+                    conv["turns"][t]["text"] = "topic 0 " + conv["turns"][t]["text"].split(" ", 2)[-1]
+                    sc["intents"][conv["turns"][t]["tok"]] = "topic 0"
         if sc["family"] == "seq":
             slots = [c for c, conv in enumerate(sc["convs"]) for _ in conv["turns"]]
             sc["order"] = d.shuffle(slots, "order")
